@@ -86,3 +86,29 @@ def l2t_e2e(o, s, tol):
 
 def w_e2e(o, s, tol):
     return [301] + w_opts(o) + w_str(s) + w_bool(tol)
+
+
+_custom = []
+
+
+def custom_dbs():
+    """(parser database, converter database) declaring \\weblink{url}{text} and the environment derivation through the
+    public API, on top of the default databases"""
+    if not _custom:
+        from pylatexenc.latexwalker import get_default_latex_context_db as wdef
+        from pylatexenc.latex2text import get_default_latex_context_db as tdef, MacroTextSpec, EnvironmentTextSpec
+        from pylatexenc.macrospec import MacroSpec, EnvironmentSpec, ParsingStateDeltaExtendLatexContextDb
+        from pylatexenc.latexnodes import (LatexArgumentSpec, ParsingStateDelta, ParsingStateDeltaChained,
+                                           ParsingStateDeltaEnterMathMode)
+        w = wdef()
+        w.add_context_category('verif-custom', prepend=True, macros=[
+            MacroSpec('weblink', [LatexArgumentSpec('{', parsing_state_delta=ParsingStateDelta(
+                set_attributes=dict(enable_comments=False, enable_math=False))), LatexArgumentSpec('{')])],
+            environments=[EnvironmentSpec('derivation', '', body_parsing_state_delta=ParsingStateDeltaChained([
+                ParsingStateDeltaExtendLatexContextDb(extend_latex_context=dict(macros=[MacroSpec('why', '{')])),
+                ParsingStateDeltaEnterMathMode()]))])
+        t = tdef()
+        t.add_context_category('verif-custom', prepend=True, macros=[MacroTextSpec('why', discard=True), MacroTextSpec('weblink', simplify_repl='%s <%s>')],
+                               environments=[EnvironmentTextSpec('derivation', discard=False)])
+        _custom.append((w, t))
+    return _custom[0]
